@@ -40,6 +40,13 @@ func ParseDateTime(value string) (DateTime, error) {
 	value = strings.TrimPrefix(value, "@")
 	for _, l := range dateTimeLayouts {
 		if t, err = time.Parse(l, value); err == nil {
+			// time.Parse adopts the process-local zone (and its daylight-saving rules) when the
+			// written offset happens to equal the local one; keep the fixed offset as written.
+			if _, offset := t.Zone(); offset == 0 {
+				t = t.UTC()
+			} else {
+				t = t.In(time.FixedZone("", offset))
+			}
 			return DateTime{t, layout(l)}, nil
 		}
 	}
